@@ -13,6 +13,8 @@ CONSTANTS Names,      \* directory names (PAR excluded by the property)
           Exts,       \* source extensions that map to the same object extension
           MaxDepth,   \* submodule depth 0..MaxDepth, script dir = first d of SubDirs
           MaxDirs,    \* max directory components of a source below the script dir
+          TDirs,      \* directory parts of the target name, e.g. <<>> for 'prog', <<"a","ab">> for 'a/ab/prog'
+                      \* (a set of sequences; supplied by a wrapper module since cfg files cannot hold tuples)
           DotsUnescaped  \* TRUE models the pre-fix rewrite pattern "(^|/)..(?=/|$)" (any two characters)
 
 SubDirs == <<"sub", "deep", "er">>
@@ -42,21 +44,22 @@ RelPAR(loc, base) == LET k == Len(LCP(loc, base))
                          rest == SubSeq(loc, k + 1, Len(loc)) IN
                      [i \in 1..(Len(base) - k) |-> "PAR"] \o [i \in 1..Len(rest) |-> Rewrite(rest[i])]
 \* object path (build-dir relative components, last = stem; ".o" is appended by the tool)
-ObjPath(d, target, intdirs, s) ==
+ObjPathT(d, td, target, intdirs, s) ==
   IF intdirs
-    THEN ScriptDir(d) \o <<target \o ".int">> \o RelPAR(Loc(d, s), ScriptDir(d)) \o <<Rewrite(s.stem)>>
+    THEN ScriptDir(d) \o td \o <<target \o ".int">> \o RelPAR(Loc(d, s), ScriptDir(d) \o td) \o <<Rewrite(s.stem)>>
     ELSE Loc(d, s) \o <<s.stem>>
+ObjPath(d, target, intdirs, s) == ObjPathT(d, <<>>, target, intdirs, s)
 
 (* ---- what TLC checks on the design model -------------------------------- *)
-VARIABLES d, intdirs, s1, s2
-vars == <<d, intdirs, s1, s2>>
-Init == /\ d \in 0..MaxDepth /\ intdirs \in BOOLEAN
+VARIABLES d, intdirs, s1, s2, td
+vars == <<d, intdirs, s1, s2, td>>
+Init == /\ d \in 0..MaxDepth /\ intdirs \in BOOLEAN /\ td \in TDirs
         /\ s1 \in Sources(d) /\ s2 \in Sources(d)
 Next == UNCHANGED vars
 Spec == Init /\ [][Next]_vars
 
 Target == "prog"
-InvInjective == Distinct(d, s1, s2) => ObjPath(d, Target, intdirs, s1) # ObjPath(d, Target, intdirs, s2)
-InvClash == ExtClash(d, s1, s2) => ObjPath(d, Target, intdirs, s1) = ObjPath(d, Target, intdirs, s2)
-InvContained == \A i \in 1..Len(ObjPath(d, Target, intdirs, s1)) : ObjPath(d, Target, intdirs, s1)[i] # ".."
+InvInjective == Distinct(d, s1, s2) => ObjPathT(d, td, Target, intdirs, s1) # ObjPathT(d, td, Target, intdirs, s2)
+InvClash == ExtClash(d, s1, s2) => ObjPathT(d, td, Target, intdirs, s1) = ObjPathT(d, td, Target, intdirs, s2)
+InvContained == \A i \in 1..Len(ObjPathT(d, td, Target, intdirs, s1)) : ObjPathT(d, td, Target, intdirs, s1)[i] # ".."
 =============================================================================
